@@ -258,7 +258,10 @@ pub fn check(c: &Case, seams_open: bool) -> CheckResult {
     let scale = polys.iter().flat_map(|p| p.pts.iter()).fold(1.0f64, |m, q| m.max(q.0.abs()).max(q.1.abs()));
     // (f32 remainder is exact, so the offset's magnitude does not enter the tolerance; the model uses the
     // same f32 offset value)
-    let tol = 2e-3 + 1e-5 * scale;
+    // (each dash boundary is placed relative to the previous one in f32: the drift grows by about an ulp of the
+    // coordinates per dash, which matters once a subpath carries hundreds of dashes)
+    let n_out = dashed.ops.len() as f64;
+    let tol = 2e-3 + 1e-5 * scale + n_out * 2.4e-7 * scale;
     let Some(model) = model else {
         // a dash array whose total is not positive paints nothing
         if out.iter().any(|(p, _)| p.len() >= 2 && poly_len(p, false) > 0.0) {
@@ -363,7 +366,8 @@ pub fn check(c: &Case, seams_open: bool) -> CheckResult {
         o.class_if(model.features.iter().any(|f| *f == "closed-end-joined-to-start" || *f == "closed-all-on"), "integer-geometry-closed-joined-or-all-on");
     }
     // ---- (b) pixels (generic class only)
-    if !c.aligned && !model.boundary_near_vertex {
+    o.class_if(model.pieces.len() > 256, "more-than-256-dashes");
+    if !c.aligned && !model.boundary_near_vertex && model.pieces.len() <= 150 {
         let mut dt = DrawTarget::new(c.w, c.h);
         dt.set_transform(&to_transform(&c.xf));
         dt.stroke(&path, &Source::Solid(SolidSource { r: 255, g: 255, b: 255, a: 255 }), &style, &DrawOptions::new());
@@ -502,6 +506,40 @@ pub fn strategy() -> BoxedStrategy<Case> {
         .boxed()
 }
 
+/// long subpaths with short dashes: several hundred dashes on one subpath (counters narrower than the dash
+/// count wrap); judged through the dasher hook only (vertices on the path, total 'on' length, every model piece
+/// present with its end points), the pixel stage is skipped beyond 150 pieces
+fn long_strategy() -> BoxedStrategy<Case> {
+    let entry = prop_oneof![3 => 0.5f32..2.5, 1 => (2i32..=10).prop_map(|v| v as f32 / 4.0)];
+    let pt = || (-300.0f32..340.0, -300.0f32..340.0);
+    (24i32..=40, 24i32..=40, prop::collection::vec(pt(), 2..=5), any::<bool>(), prop::collection::vec(entry, 1..=6), prop_oneof![2 => Just(0.0f32), 2 => 0.0f32..20.0, 1 => -50.0f32..0.0], 1.0f32..4.0, 0u8..3, 0u8..3)
+        .prop_map(|(w, h, pts, closed, dash, offset, width, cap, join)| {
+            let mut ops = vec![POp::M(pts[0].0, pts[0].1)];
+            let mut last = pts[0];
+            for p in &pts[1..] {
+                if ((p.0 - last.0).powi(2) + (p.1 - last.1).powi(2)).sqrt() >= 40.0 {
+                    ops.push(POp::L(p.0, p.1));
+                    last = *p;
+                }
+            }
+            if ops.len() < 2 {
+                ops.push(POp::L(last.0 + 400.0, last.1 + 300.0));
+            }
+            if closed {
+                ops.push(POp::Z);
+            }
+            Case {
+                w,
+                h,
+                path: PathSpec { ops, evenodd: false },
+                style: StyleSpec { width: Fl(width), cap, join, miter: Fl(4.0), dash: dash.into_iter().map(Fl).collect(), offset: Fl(offset) },
+                xf: IDENT,
+                aligned: false,
+            }
+        })
+        .boxed()
+}
+
 /// arrays that must disable the stroke
 fn rejected_strategy() -> BoxedStrategy<Case> {
     (strategy(), prop::sample::select(vec![vec![0.0f32], vec![0.0, 0.0], vec![-1.0, -2.0], vec![3.0, -5.0], vec![f32::NAN], vec![1.0, f32::NAN]]))
@@ -516,12 +554,12 @@ pub fn property(ctx: &Ctx) -> Property {
     let seams_open = ctx.excluded(super::c04::SEAM_KEY);
     Property {
         id: "C09",
-        rule: "cases: 1-3 polyline subpaths (open/closed, 2-5 vertices, segments >= 1 px), dash arrays of 1-6 positive entries (0.5..30 plus entries longer than the whole path; odd lengths), offsets 0 / small / beyond the period / 10^3..10^4 / negative / huge (10^5..10^15, either sign), widths 1-6, all caps and joins, identity or similarity transform; a generic class (random floats) and an aligned class (integer lengths and dashes so that dash boundaries land exactly on vertices, subpath ends and the closing point); plus arrays that must disable the stroke (zero, negative or NaN total). Oracle (a), both classes, through the cfg(raqote_verif) hook on dash_path: every output vertex lies on the input path, total 'on' length equals that of an f64 arc-length dasher (pattern repeated cyclically, odd arrays doubled, offset modulo the period with mathematical sign, restarted per subpath), a closed subpath that is 'on' throughout comes out as one closed outline, and in the generic class every model piece (incl. the piece joined across the start of a closed subpath) appears with the same end points and length. Oracle (b), generic class: the model's pieces are turned into C04's stroke region and every pixel more than 0.75 px inside / outside is judged. Non-trivial: >= 2 dashes on a subpath and one of: closed subpath, dash spanning a corner, offset != 0, odd array, dash longer than the subpath, dash boundary on the closing segment; distinct by hash of the case.",
+        rule: "cases: 1-3 polyline subpaths (open/closed, 2-5 vertices, segments >= 1 px), dash arrays of 1-6 positive entries (0.5..30 plus entries longer than the whole path; odd lengths), offsets 0 / small / beyond the period / 10^3..10^4 / negative / huge (10^5..10^15, either sign), widths 1-6, all caps and joins, identity or similarity transform; a generic class (random floats) and an aligned class (integer lengths and dashes so that dash boundaries land exactly on vertices, subpath ends and the closing point); plus arrays that must disable the stroke (zero, negative or NaN total); part long: subpaths of 40..900 px (mostly off-surface) with 1-6 entries of 0.5..2.5, i.e. several hundred dashes per subpath, judged by oracle (a) only. Oracle (a), both classes, through the cfg(raqote_verif) hook on dash_path: every output vertex lies on the input path, total 'on' length equals that of an f64 arc-length dasher (pattern repeated cyclically, odd arrays doubled, offset modulo the period with mathematical sign, restarted per subpath), a closed subpath that is 'on' throughout comes out as one closed outline, and in the generic class every model piece (incl. the piece joined across the start of a closed subpath) appears with the same end points and length. Oracle (b), generic class: the model's pieces are turned into C04's stroke region and every pixel more than 0.75 px inside / outside is judged. Non-trivial: >= 2 dashes on a subpath and one of: closed subpath, dash spanning a corner, offset != 0, odd array, dash longer than the subpath, dash boundary on the closing segment; distinct by hash of the case.",
         assumptions: vec![
             "pixel judgement excludes the aligned class and any case with a dash boundary within 1e-3 (+4e-7 x |offset|, the f32 phase error) of a vertex or of either end of a subpath (whether an epsilon-long piece turns a corner is decided by f32 rounding)",
             "the sub-pixel seam finding of C04 applies to dashed strokes with the same signature",
         ],
-        parts: vec![part("dash", 40_000, 800_000, strategy, move |c| check(c, seams_open)), part("rejected", 600, 10_000, rejected_strategy, move |c| check(c, seams_open))],
+        parts: vec![part("dash", 40_000, 800_000, strategy, move |c| check(c, seams_open)), part("rejected", 600, 10_000, rejected_strategy, move |c| check(c, seams_open)), part("long", 1_500, 30_000, long_strategy, move |c| check(c, seams_open))],
         min_class_fraction: vec![
             ("dash", "multi-dash", 0.5),
             ("dash", "closed-subpath", 0.3),
@@ -534,6 +572,7 @@ pub fn property(ctx: &Ctx) -> Property {
             ("dash", "closed-all-on", 0.01),
             ("dash", "aligned", 0.2),
             ("dash", "pixels-judged", 0.4),
+            ("long", "more-than-256-dashes", 0.3),
         ],
         panic_is_violation: false,
     }
